@@ -111,9 +111,12 @@ class SSETransport(Transport):
             # Create HTTP clients with proper headers
             client_headers = self._get_headers()
 
+            # The event stream is legitimately silent between two events: reading it
+            # must not be bounded by the request timeout (connecting to it is, here
+            # and by the wait in _handle_sse_connection); POSTs keep the full timeout.
             self._stream_client = httpx.AsyncClient(
                 headers=client_headers,
-                timeout=httpx.Timeout(self.timeout),
+                timeout=httpx.Timeout(self.timeout, read=None),
             )
 
             self._send_client = httpx.AsyncClient(
